@@ -83,7 +83,8 @@ _tile_contract('tile_location_reverse_tms',
                         fmtd(tile.coord[2]) + '.' + file_ext)""",
                'result == cache_dir')
 _tile_contract('tile_location_arcgiscache',
-               """pjoin(cache_dir, 'L' + fmt0d(2, tile.coord[2]), 'R' + fmt0x(8, tile.coord[1]),
+               # (the dimension sub-path is part of EVERY layout: tiles that differ only in a dimension value never share a file)
+               """pjoin(cache_dir, dimensions_part(dimensions), 'L' + fmt0d(2, tile.coord[2]), 'R' + fmt0x(8, tile.coord[1]),
                         'C' + fmt0x(8, tile.coord[0]) + '.' + file_ext)""",
                'result == cache_dir')
 
@@ -122,8 +123,7 @@ contract(H + 'level_dir_and_tile', props=['C12'],
                               # the dimension sub-path: empty, or segments joined by '/' without a leading or trailing
                               # '/' (assumed here; the bounded contract of dimensions_part checks it)
                               "not dimensions_part(dimensions).startswith('/') and not dimensions_part(dimensions).endswith('/')",
-                              # the arcgis layout has no dimension directories at all
-                              "implies(layout == 'arcgis', dimensions_part(dimensions) == '')"],
+                              ],
          split=["dimensions_part(dimensions) == ''"],
          # a layout either offers no level directory at all (reverse_tms: the level is the LAST component) or one that
          # contains every tile of that level
@@ -158,3 +158,18 @@ lemma('path_leaf_step', ['C05'],
 # nine number images per path, two paths - stays `unknown` in z3 and cvc5 after 7 minutes).  The argument is assembled from
 # the proved pieces instead: formula contracts above (the real functions compute exactly these paths), path_segment_step /
 # path_leaf_step (component-wise separation), the digit-group lemmas, and A-fmt (number formats injective).
+
+
+# ---- quadkey layout: loops over bits and string concatenation - BOUNDED check against an independent formula -------------------------
+def _quadkey_location(args, result):
+    """cache_dir / <dimension sub-path> / <quadkey digits>.<ext>, below cache_dir; the dimension sub-path is part of the path"""
+    from mapproxy.cache.path import dimensions_part as _dp
+    tile = args['tile']
+    x, y, z = tile.coord
+    digits = ''.join(str(((x >> (i - 1)) & 1) + 2 * ((y >> (i - 1)) & 1)) for i in range(z, 0, -1))
+    want = os.path.join(args['cache_dir'], _dp(args.get('dimensions')), digits + '.' + args['file_ext'])
+    return result == want and _loc_below_cache_dir(args, result) and tile.location == result
+
+
+contract(P + 'tile_location_quadkey', props=['C05', 'C09'], verify=False,
+         types=TILE_T, returns='str', ensures=[_quadkey_location], fuzz_gen=_gen_tile_loc, bounded=dict(n=1500, seconds=6))
